@@ -66,6 +66,11 @@ class FieldData:
     elif self.virtual:
       raise gfapy.RuntimeError("Virtual lines do not have tags")
     elif (self.vlevel == 0) or self._is_valid_custom_tagname(fieldname):
+      if self._is_attribute_name(fieldname):
+        # (possible at vlevel 0 only, where any tag name is accepted)
+        raise gfapy.FormatError(
+          "{} cannot be used as tag name: ".format(fieldname)+
+          "it is the name of an attribute of the line")
       self._define_field_methods(fieldname)
       if self._datatype.get(fieldname, None) is not None:
         return self._set_existing_field(fieldname, value)
